@@ -87,6 +87,19 @@ pub fn family(rng: &mut Rng, kind: u64, size: usize) -> Vec<Pt2> {
             v.reverse();
             v
         }
+        // almost convex: a sector ("pac-man") — every corner convex except the one at the centre
+        9 => {
+            let m = n.max(18);
+            let span = rng.uniform(200.0, 340.0f64).to_radians();
+            let a0 = rng.uniform(0.0, std::f64::consts::TAU);
+            let r = rng.uniform(0.8, 3.0);
+            let mut v = vec![Pt2::new(0.0, 0.0)];
+            for i in 0..m {
+                let t = a0 + span * i as f64 / (m - 1) as f64;
+                v.push(Pt2::new(r * t.cos(), r * t.sin()));
+            }
+            v
+        }
         _ => {
             // dyadic sizes: (0,s+o), (o,s), (s,o), (s+o,0) are exactly collinear
             let mut v: Vec<Pt2> = dim2::chamfer(rng.range(8, 24) as f64 / 8.0, rng.range(1, 7) as f64 / 8.0).to_vec();
@@ -95,7 +108,7 @@ pub fn family(rng: &mut Rng, kind: u64, size: usize) -> Vec<Pt2> {
         }
     }
 }
-pub const N_FAMILIES: u64 = 9;
+pub const N_FAMILIES: u64 = 10;
 
 pub fn signed_area2(v: &[Pt2]) -> f64 {
     let n = v.len();
@@ -192,6 +205,8 @@ pub fn profile_cw(rng: &mut Rng, max_n: usize) -> Vec<Pt2> {
     let kind = rng.below(N_FAMILIES);
     let n = 4 + rng.below((max_n - 3) as u64) as usize;
     let v = family(rng, kind, n);
-    let shift = rng.below(v.len() as u64) as usize;
+    // the one reflex corner of an almost convex outline is put at the seam of the vertex list as often as not:
+    // code that walks the outline without wrapping around sees a convex polygon then
+    let shift = if kind == 9 && rng.chance(0.6) { [0usize, 1, v.len() - 1][rng.below(3) as usize] } else { rng.below(v.len() as u64) as usize };
     place(&v, 0.0, 1.0, Pt2::new(0.0, 0.0), true, shift)
 }
